@@ -99,6 +99,11 @@ def check(ctx):
     n, f = c04.table_rule(ctx, 'R03.2', lambda p: bool(TYPING.match(p)), 'the typing functions code generation relies on', guards.GUARD_FIELDS)
     ctx.floor('R03.2', 'typing functions', f, 20)
     r_cannot_compile(ctx)
+    from . import c08, c09
+    c08.r_equations(ctx)
+    c08.r_wiring(ctx)
+    c09.r_equations(ctx)
+    c09.r_stack(ctx)
     c04.r_zip(ctx, 'R03.6')
     from . import c06
     c06.panic_rule(ctx, 'R03.3', entries=['TemplateProgram::instantiate', 'CompiledProgram::commit'], what='instantiate/commit')
